@@ -40,6 +40,12 @@ type Monitor struct {
 	commits     map[uint64]map[int]common.Hash
 	proposedIDs map[uint64][]types.BlockID
 	maxRound    int
+	// proposer views: (height, round) -> proposer address as seen by the first node observed there
+	proposerAt map[[2]uint64]string
+	proposerBy map[[2]uint64]int
+	// ProposerMismatch collects disagreements between correct nodes about who proposes at (H,R)
+	// (C17: the proposer must not depend on how a node reached the round).
+	ProposerMismatch []Violation
 	// VoteHook, if set, sees every vote a correct node emits (after the built-in checks).
 	VoteHook func(n *Node, v *types.Vote)
 }
@@ -152,10 +158,40 @@ func (m *Monitor) OnEmit(n *Node, msg cs.ConsensusMessage) {
 	}
 }
 
+// observeProposer compares node n's view of the proposer of its current (H,R) with the other nodes' views.
+func (m *Monitor) observeProposer(n *Node, h uint64, r int) {
+	rs := n.CS.GetRoundState()
+	if rs.Height != h || rs.Round != r || rs.Validators == nil {
+		return
+	}
+	if m.proposerAt == nil {
+		m.proposerAt = map[[2]uint64]string{}
+		m.proposerBy = map[[2]uint64]int{}
+	}
+	k := [2]uint64{h, uint64(r)}
+	addr := string(rs.Validators.GetProposer().Address)
+	m.count("proposer_views_observed", 1)
+	if r > 0 {
+		m.count("proposer_views_observed_round_gt0", 1)
+	}
+	if prev, ok := m.proposerAt[k]; ok {
+		if m.proposerBy[k] != n.ID {
+			m.count("proposer_views_compared", 1)
+		}
+		if prev != addr && len(m.ProposerMismatch) < 5 {
+			m.ProposerMismatch = append(m.ProposerMismatch, Violation{"proposer/correct-nodes-disagree", fmt.Sprintf("at height %d round %d node v%d sees proposer %X but node v%d sees %X", h, r, m.proposerBy[k], prev, n.ID, addr)})
+		}
+		return
+	}
+	m.proposerAt[k] = addr
+	m.proposerBy[k] = n.ID
+}
+
 func (m *Monitor) onOwnVote(n *Node, v *types.Vote) {
 	if m.VoteHook != nil {
 		defer m.VoteHook(n, v)
 	}
+	m.observeProposer(n, v.Height, v.Round)
 	m.count("votes_checked", 1)
 	if v.Round > m.maxRound {
 		m.maxRound = v.Round
